@@ -1,0 +1,13 @@
+//go:build verif
+
+// Contracts for package xpub (comment-only; read by /verif/govc).
+
+package xpub
+
+//@ struct pipe
+//@   immutable: p s closeq sendq
+//@
+//@ struct socket
+//@   lock Mutex level 20
+//@   guarded_by Mutex: closed pipes sendQLen
+//@
